@@ -6,6 +6,11 @@ ROOT = os.path.dirname(os.path.dirname(os.path.abspath(__file__)))
 
 # property id -> (engine, level category, technique, level text, level note, design ref)
 CHECKS = {
+    "C06": ("CRASH", "fault_enumeration",
+            "crash-point x torn-write enumeration over the strace-recorded syscall log of the real save routines, recovery with the real loaders",
+            "For every scenario (short pre-history, then the save under test: IndexManager::save_all after add/remove/flush, ResidencyDb::save, LruManager::checkpoint_to_disk/shutdown, DiskCache::put/remove) the syscalls of the real routine are recorded with strace; every crash point, every durable prefix of the name-space operations and every prefix/tear/zero-tail variant of every un-synced write is materialised as a directory; the real loader must succeed and every object must equal its state before or after the save. The log interpretation is self-checked (full replay must reproduce the final directory).",
+            "Trusted: the persistence model of DESIGN §2.3 (name-space ops durable in program order up to an adversarial prefix, data durable only up to the last fsync, byte-granular tearing), strace completeness, and that the pre-history is durable. File systems that persist a rename before the renamed file's fsynced data are outside the model.",
+            "DESIGN.md §2.3, §4 C06"),
     "C17": ("SEQ", "model_checking",
             "explicit-state exploration of all operation histories up to a depth bound on the real LruManager, lock-step with a textbook LRU model",
             "Every history of <=5 (quick) / <=6 (thorough) operations over touch/remove/evict_tail/evict_to_target/bump_generation/checkpoint/load/run_cycle/reset/shutdown x 4 keys (one all-zero) x capacities 0..3 is executed on the real LruManager and compared after every step with a VecDeque LRU (contents, order, len, contains, return values). Exhaustive within the bound; the first counterexample is the shortest.",
